@@ -99,7 +99,8 @@ pub fn exec(case: &str) -> String {
 
 const ALPHABET: &[&str] = &["x", "y", "foo", "1", "23", "4.5", " ", " ", "\n", "\n", "\t", ":=", "=", "+=", "+", "-", "*", "/", "^", "(", ")", "[", "]", "{", "}", "<", ">", ",", ";", ":", ".", "..", "..=",
   "\"", "'", "|", "&&", "||", "!", "~", "#", "$$", "```", "--", "//", "=>", "->", "?", "@", "%", "\\", "_", "├", "└", "│", "─", "═", "true", "false", "u8", "f64", "<u8>", "∪", "∈", "⊆", "Δ", "⋈",
-  "é", "e\u{301}", "😀", "👩‍👩‍👧", "🇩🇪", "\u{200b}", "\u{a0}", "\r\n", "\r", "中", "→", "≠", "¬", "*", "***", "- ", "> ", "1. ", "(1.1) ", "[^1]", "![", "](", "{{", "}}", "%%", "mech:", "disabled"];
+  "é", "e\u{301}", "😀", "👩‍👩‍👧", "🇩🇪", "\u{200b}", "\u{a0}", "\r\n", "\r", "中", "→", "≠", "¬", "*", "***", "- ", "> ", "1. ", "(1.1) ", "[^1]", "![", "](", "{{", "}}", "%%", "mech:", "disabled",
+  "0x", "0o", "0b", "0d", "1e", "e+", "e-", "i", "1/", "0x1", "u8", ".", "1."];
 
 fn mutate(rng: &mut Rng, src: &str) -> String {
   // token-level mutations: split on spaces/newlines keeping them
@@ -167,6 +168,18 @@ pub fn generate(seed: u64, thorough: bool, sink: &mut Sink) -> Vec<String> {
   // seven unclosed brackets do not finish within the budget (known finding): one case, thorough tier only
   if thorough { push("unclosed", "[".repeat(7), sink); }
   for s in ["$$$$", "$$", "```", "```mech", "\"", "x := \"", "|", "x := |a|", "#", "#A(", "~", ":=", "{{", "{{x", "[^", "![](", "\u{feff}x := 1", "x := 1\u{0}", "\r", "\r\n\r\n", ""] { push("edge", s.to_string(), sink); }
+  // every proper prefix of every kind of lexeme, in the places an expression can stand: a literal or
+  // operator cut short must be an error (or something shorter), never a panic
+  let lexemes = ["0xFF", "0o17", "0b101", "0d12", "1.5e+3", "1.5e-3", "2E10", "1/2", "1+2i", "3.5j", "12u8", "1.5f32", "1_000", "0x_F", "\"a\\nb\"", "\"a{x}b\"", ":atom", "`sym`",
+    "<u8>", "<[u8]:2,3>", "{1,2}", "{a: 1}", "[1 2; 3 4]", "(1,2)", "1..2..=9", "x.y.z", "x[1,2]", "x{1}", "true", "false", "f(x: 1)", "x'", "-x", "!b", "a ** b", "a ⊆ b", "a <= b", "a && b", "a |> f",
+    "|a b|\n|1 2|", "#m(x) -> y", "x?", "_", "∅", "π", "1.", ".5", "@a", "x:=1", "~x := 1", "x += 1", "x<u8> := 1"];
+  for lx in lexemes.iter() {
+    let cs: Vec<char> = lx.chars().collect();
+    for k in 1..=cs.len() {
+      let pre: String = cs[..k].iter().collect();
+      for ctx in ["{}", "x := {}", "x := {} + 1", "[1 {} 3]", "f({})", "y := 2\nx := {}\nz := 3"] { push("lexeme-prefix", ctx.replace("{}", &pre), sink); }
+    }
+  }
   // (3) repository files and their prefixes
   let mut files: Vec<std::path::PathBuf> = vec![];
   let mut stack = vec![std::path::PathBuf::from("/repo/docs"), std::path::PathBuf::from("/repo/examples")];
